@@ -43,7 +43,7 @@ Print Assumptions C01_writer_refines_unchunked.
    its index with its value, nothing else; contiguously written samples as ONE block even when they
    span files and subdirectories; blocks split exactly at the edges of the gaps.
    Single-block call histories, chunked mode. *)
-From DRF Require Import Base.Runs Model.ReaderCore Proofs.RoundTrip.
+From DRF Require Import Base.Runs Model.ReaderCore Proofs.RoundTrip Proofs.WriterBasics.
 
 Theorem C01_roundtrip_single_chunked_partial : forall c ops s e,
   vcfg c -> 0 < c_sc c -> (c_sc c * 1000) mod c_fc c = 0 -> c_chunk c = true ->
@@ -52,3 +52,45 @@ Theorem C01_roundtrip_single_chunked_partial : forall c ops s e,
   = runs (s_map (fold_left (spec_step c) ops spec_init)) s e.
 Proof. exact roundtrip_single_chunked. Qed.
 Print Assumptions C01_roundtrip_single_chunked_partial.
+
+(* ---- block calls: rf_write_blocks / digital_rf_write_blocks_hdf5 with any number of blocks per call.
+   The block description (G_i, D_i) together with the data IS an index (rows_lookup bl vec r = the
+   call's sample at relative index r); a call is accepted iff its arrays are valid w.r.t. the cursor
+   (and, in continuous mode, it has a single block); an accepted call overrides the Spec map with its
+   samples and moves the cursor one past its highest index; any other call changes nothing.
+   Chunked layouts (gapped -- the only mode where several blocks per call are accepted -- and
+   continuous with compression/checksum). *)
+From DRF Require Import Proofs.WriterMultiIdx Proofs.WriterMulti.
+
+Theorem C01_writer_refines_blocks_chunked : forall c ops, vcfg c -> c_chunk c = true ->
+  Forall (fun op => first_nonneg (fst op)) ops ->
+  refines c (fold_left (model_step_blocks c) ops init_state) (fold_left (spec_step_blocks c) ops spec_init).
+Proof. exact writer_refines_blocks_chunked. Qed.
+Print Assumptions C01_writer_refines_blocks_chunked.
+
+(* one accepted call: return code 0, invariant kept, cursor one past the call's highest index, the
+   stored map overridden by exactly the call's samples, files still in increasing time order *)
+Theorem C01_write_blocks_chunked : forall c st bl vec,
+  vcfg c -> c_chunk c = true -> Inv c st ->
+  valid_arrays (w_gi st) (zlen vec) bl = true -> c_cont c && multi bl = false -> first_nonneg bl ->
+  exists st',
+    write_blocks c st bl vec = (0, st') /\ Inv c st' /\
+    w_gi st' = blocks_end bl (zlen vec) /\
+    (ms_incr (map f_ms (all_files st)) -> ms_incr (map f_ms (all_files st'))) /\
+    forall k, lookup_st st' k =
+      match rows_lookup bl vec (k - c_start c) with
+      | Some v => Some v
+      | None => lookup_st st k
+      end.
+Proof. exact write_blocks_chunked. Qed.
+Print Assumptions C01_write_blocks_chunked.
+
+(* the round trip for block-call histories: reader model on the writer model's files = canonical runs
+   of the Spec map -- the full statement of the property for the chunked layouts *)
+Theorem C01_roundtrip_blocks_chunked : forall c ops s e,
+  vcfg c -> 0 < c_sc c -> (c_sc c * 1000) mod c_fc c = 0 -> c_chunk c = true ->
+  Forall (fun op => first_nonneg (fst op)) ops ->
+  read ExactRational (rc_of c) (map (to_rfile c) (all_files (fold_left (model_step_blocks c) ops init_state))) s e
+  = runs (s_map (fold_left (spec_step_blocks c) ops spec_init)) s e.
+Proof. exact roundtrip_blocks_chunked. Qed.
+Print Assumptions C01_roundtrip_blocks_chunked.
